@@ -1091,6 +1091,12 @@ pub(crate) fn get_data_type_attrs(input: &[Attribute]) -> Result<(DataTypeAttrs,
         } else if let Some(instr) = path.get_ident() {
             #[cfg(o2o_verif)]
             crate::verif::on_instr("type", &instr.to_string(), false);
+            // #[name = "value"] is never an o2o instruction: it belongs to somebody else (#[must_use = "..."], #[deprecated = "..."], ...)
+            #[cfg(feature = "syn")]
+            if matches!(x.tokens.clone().into_iter().next(), Some(proc_macro2::TokenTree::Punct(p)) if p.as_char() == '=') {
+                continue;
+            }
+
             #[cfg(feature = "syn")]
             let tokens = syn::parse2(x.tokens.clone()).map(|x: OptionalParenthesizedTokenStream|x.content())?;
 
@@ -1101,7 +1107,8 @@ pub(crate) fn get_data_type_attrs(input: &[Attribute]) -> Result<(DataTypeAttrs,
                     syn2::MacroDelimiter::Paren(_) => l.tokens.clone(),
                     _ => Err(syn::Error::new(x.span(), "unexpected token"))?,
                 },
-                syn2::Meta::NameValue(_) => Err(syn::Error::new(x.span(), "#[name = \"Value\"] syntax is not supported."))?,
+                // #[name = "value"] is never an o2o instruction: it belongs to somebody else (#[must_use = "..."], #[deprecated = "..."], ...)
+                syn2::Meta::NameValue(_) => continue,
             };
 
             instrs.push(parse_data_type_instruction(instr, tokens, false, bark)?);
@@ -1173,6 +1180,12 @@ pub(crate) fn get_member_attrs(input: SynDataTypeMember, bark: bool) -> Result<M
         } else if let Some(instr) = path.get_ident() {
             #[cfg(o2o_verif)]
             crate::verif::on_instr("member", &instr.to_string(), false);
+            // #[name = "value"] is never an o2o instruction: it belongs to somebody else (#[must_use = "..."], #[deprecated = "..."], ...)
+            #[cfg(feature = "syn")]
+            if matches!(x.tokens.clone().into_iter().next(), Some(proc_macro2::TokenTree::Punct(p)) if p.as_char() == '=') {
+                continue;
+            }
+
             #[cfg(feature = "syn")]
             let tokens = syn::parse2(x.tokens.clone()).map(|x: OptionalParenthesizedTokenStream|x.content())?;
             
@@ -1183,7 +1196,8 @@ pub(crate) fn get_member_attrs(input: SynDataTypeMember, bark: bool) -> Result<M
                     syn2::MacroDelimiter::Paren(_) => l.tokens.clone(),
                     _ => Err(syn::Error::new(x.span(), "unexpected token"))?,
                 },
-                syn2::Meta::NameValue(_) => Err(syn::Error::new(x.span(), "#[name = \"Value\"] syntax is not supported."))?,
+                // #[name = "value"] is never an o2o instruction: it belongs to somebody else (#[must_use = "..."], #[deprecated = "..."], ...)
+                syn2::Meta::NameValue(_) => continue,
             };
 
             instrs.push(parse_member_instruction(instr, tokens, false, bark)?);
